@@ -70,9 +70,9 @@ func main() {
 	}
 	r := evidence.New("C16", "exploration")
 	r.Rule("case = (2-4 registry hosts out of a pool incl. same name/different port, each with own credential {user+password, +refresh token, refresh only, static access token, wrong password, none}, " +
-		"scheme {Basic, Bearer, open, unknown}, realm on {own host, foreign token host (possibly shared), another registry's host}; one auth.Client with cache flavour {none, NewCache, NewSingleContextCache}, ForceAttemptOAuth2 on/off). " +
+		"scheme {Basic, Bearer, open, unknown}, optionally redirecting (301/302/307/308, all paths or blobs, before or after authentication) to another registry or to a blob-store host with or without credentials of its own, realm on {own host, foreign token host (possibly shared), another registry's host}; one auth.Client with cache flavour {none, NewCache, NewSingleContextCache}, ForceAttemptOAuth2 on/off). " +
 		"Repository names include host:port/ prefixes and several colons (scope type ends at the first colon, actions start after the last). seq: history of 8-30 ops (requests GET/HEAD/POST/PUT/DELETE/ping/catalog/mount with scope hints {none, exact, oddly written, superset, extra repo, for another host, global}, token expiry, scheme change, realm move). " +
-		"conc: warm-up, then rounds of groups of identical cold requests released together with background traffic to other hosts; the token endpoint or the credential helper is held until all entered Cache.Set, then nobody / the fetch owner (once or twice in a row) / a waiter has its context ended by the harness with context.Canceled or context.DeadlineExceeded (manual contexts, no wall clock); plus late-join probes (L held inside the fetch, waiter W cancelled and returned, R seen inside Once.Do while the fetch is still held: one fetch and L's token are demanded), unsynchronised storms and, for the single-context cache, probes of 3-8 concurrent requests with different scopes to one host that enter the host-keyed Cache.Set together (spin barrier in the hook). " +
+		"conc: warm-up, then rounds of groups of identical cold requests released together with background traffic to other hosts; the token endpoint or the credential helper is held until all entered Cache.Set, then nobody / the fetch owner (once or twice in a row) / a waiter has its context ended by the harness with context.Canceled or context.DeadlineExceeded (manual contexts, no wall clock); plus shared-context rounds (6-12 concurrent requests for different repositories under ONE context whose 3/5/6 hints were appended successively, first 401s delivered together), late-join probes (L held inside the fetch, waiter W cancelled and returned, R seen inside Once.Do while the fetch is still held: one fetch and L's token are demanded), unsynchronised storms and, for the single-context cache, probes of 3-8 concurrent requests with different scopes to one host that enter the host-keyed Cache.Set together (spin barrier in the hook). " +
 		"Every request at the innermost transport is scanned for every secret (raw, base64, form/query-decoded); every returned response is matched with the registry model's last answer. " +
 		"distinct = hash(flavour, force, per-registry (scheme, realm kind, credential kind), op / round shapes); non-trivial = at least one send happened while the client held a secret or token of another host, and (seq) a cached token was presented by a request other than the one that fetched it, or the flavour is none, " +
 		"(conc) at least one group had >= 2 live requests and its token fetch or credential lookup was held while all of them were inside Cache.Set (for flavour none: all held at once)")
@@ -100,9 +100,10 @@ func main() {
 		r.Inconclusive("hook auth.cache.set.enter never reached: coalescing rounds were not synchronised")
 	}
 	floor := r.N(4000, 100000)
-	if r.Counter("late_join_probes") < int64(r.N(150, 4000)) || r.Counter("coalesced_groups") < int64(r.N(800, 25000)) || r.Counter("handovers_after_cancelled_owner") < int64(r.N(300, 10000)) {
-		fmt.Printf("BROKEN: property=C16 too few coalescing observations (coalesced_groups=%d handovers=%d late_join_probes=%d)\n",
-			r.Counter("coalesced_groups"), r.Counter("handovers_after_cancelled_owner"), r.Counter("late_join_probes"))
+	if r.Counter("shared_context_rounds") < int64(r.N(200, 5000)) || r.Counter("redirected_requests") < int64(r.N(1500, 40000)) ||
+		r.Counter("late_join_probes") < int64(r.N(150, 4000)) || r.Counter("coalesced_groups") < int64(r.N(800, 25000)) || r.Counter("handovers_after_cancelled_owner") < int64(r.N(300, 10000)) {
+		fmt.Printf("BROKEN: property=C16 too few coalescing observations (coalesced_groups=%d handovers=%d late_join_probes=%d shared_context_rounds=%d redirected_requests=%d)\n",
+			r.Counter("coalesced_groups"), r.Counter("handovers_after_cancelled_owner"), r.Counter("late_join_probes"), r.Counter("shared_context_rounds"), r.Counter("redirected_requests"))
 		code := r.Write(floor)
 		if code == 0 {
 			code = 2
@@ -158,6 +159,8 @@ type regSpec struct {
 	Scheme    string `json:"scheme"`
 	RealmKind string `json:"realm_kind"`
 	CredKind  string `json:"cred_kind"`
+	Redirect  string `json:"redirect,omitempty"`
+	redirects bool
 	cred      auth.Credential
 	model     *authmodel.Registry
 	touched   bool
@@ -173,11 +176,13 @@ type reqSpec struct {
 	Global  []string            `json:"global_hints,omitempty"`
 	Shape   string              `json:"shape"`
 	HintAPI int                 `json:"hint_api"`
+	baseCtx context.Context
 }
 
 var lastEnv *env
 
 type env struct {
+	sendBar    atomic.Pointer[sendBarrier]
 	colonRepos bool
 	probe      atomic.Pointer[barrier]
 	caseIdx    int
@@ -250,8 +255,20 @@ func newEnv(rng *rand.Rand, phase string, seed int64, i int, res *worker.Result)
 		hosts = rest
 	}
 	sharedRealm := "https://" + authHosts[rng.IntN(len(authHosts))] + "/token"
-	for k := 0; k < nReg; k++ {
-		h := hosts[k]
+	// sometimes an additional blob-store / mirror host that others redirect to
+	storeHost := ""
+	if rng.IntN(4) == 0 {
+		storeHost = []string{"blobs.cdn-x.test", "store.example.net:8443"}[rng.IntN(2)]
+	}
+	total := nReg
+	if storeHost != "" {
+		total++
+	}
+	for k := 0; k < total; k++ {
+		h := storeHost
+		if k < nReg {
+			h = hosts[k]
+		}
 		rs := &regSpec{Host: h}
 		switch x := rng.IntN(20); {
 		case x < 5:
@@ -262,6 +279,9 @@ func newEnv(rng *rand.Rand, phase string, seed int64, i int, res *worker.Result)
 			rs.Scheme = authmodel.SchemeOpen
 		default:
 			rs.Scheme = authmodel.SchemeOther
+		}
+		if k >= nReg && rng.IntN(2) == 0 {
+			rs.Scheme = authmodel.SchemeOpen // a blob store that needs no credentials
 		}
 		m := &authmodel.Registry{Host: h, Scheme: rs.Scheme, WildSalt: rng.Uint64()}
 		switch rng.IntN(4) {
@@ -326,6 +346,34 @@ func newEnv(rng *rand.Rand, phase string, seed int64, i int, res *worker.Result)
 		}
 		e.regs = append(e.regs, rs)
 	}
+	// redirects: one registry answers some requests with 301/302/307/308 to the
+	// same path on another modelled host (net/http follows them inside
+	// client.Do, below the auth client and above the world's transport). The
+	// target never has the source's host name: net/http itself forwards the
+	// Authorization header to the same name on another port or a subdomain,
+	// which is not the auth client's doing.
+	if rng.IntN(3) == 0 {
+		src := rng.IntN(nReg)
+		name := func(h string) string { return strings.Split(h, ":")[0] }
+		var cands []int
+		for t := range e.regs {
+			a, b := name(e.regs[src].Host), name(e.regs[t].Host)
+			if t != src && a != b && !strings.HasSuffix(a, "."+b) && !strings.HasSuffix(b, "."+a) {
+				cands = append(cands, t)
+			}
+		}
+		if len(cands) > 0 {
+			t := cands[rng.IntN(len(cands))]
+			if storeHost != "" && rng.IntN(2) == 0 && name(storeHost) != name(e.regs[src].Host) {
+				t = len(e.regs) - 1
+			}
+			rd := &authmodel.Redirect{To: e.regs[t].Host, Code: []int{301, 302, 307, 307, 308}[rng.IntN(5)],
+				What: []string{"all", "blobs", "blobs"}[rng.IntN(3)], When: []string{"pre", "post"}[rng.IntN(2)]}
+			e.regs[src].model.Redirect = rd
+			e.regs[src].redirects = true
+			e.regs[src].Redirect = fmt.Sprintf("%d/%s/%s->%s(%s/%s)", rd.Code, rd.What, rd.When, rd.To, e.regs[t].Scheme, e.regs[t].CredKind)
+		}
+	}
 	switch e.flavour {
 	case "shared":
 		e.client = &auth.Client{Cache: auth.NewCache()}
@@ -365,6 +413,14 @@ func (e *env) credential(ctx context.Context, hostport string) (auth.Credential,
 		}
 	}
 	return auth.EmptyCredential, nil
+}
+
+func (e *env) regIdx() []int {
+	out := make([]int, len(e.regs))
+	for i := range out {
+		out[i] = i
+	}
+	return out
 }
 
 func (e *env) count(k string, n int64) {
@@ -536,13 +592,19 @@ type outcome struct {
 func (e *env) do(sp *reqSpec, wrap func(ctx context.Context, corr int) context.Context) outcome {
 	rs := e.regs[sp.Reg]
 	corr := int(e.corrN.Add(1))
-	ctx := authmodel.WithCorr(context.Background(), corr)
+	base := context.Background()
+	if sp.baseCtx != nil {
+		base = sp.baseCtx // a context shared with other requests: it already carries the hints
+	}
+	ctx := authmodel.WithCorr(base, corr)
 	if wrap != nil {
 		ctx = wrap(ctx, corr)
 	}
 	hosts := make([]string, 0, len(sp.PerHost))
 	for h := range sp.PerHost {
-		hosts = append(hosts, h)
+		if sp.baseCtx == nil {
+			hosts = append(hosts, h)
+		}
 	}
 	sort.Strings(hosts)
 	for _, h := range hosts {
@@ -570,7 +632,7 @@ func (e *env) do(sp *reqSpec, wrap func(ctx context.Context, corr int) context.C
 			}
 		}
 	}
-	if len(sp.Global) > 0 {
+	if len(sp.Global) > 0 && sp.baseCtx == nil {
 		if sp.HintAPI == 1 {
 			for _, s := range sp.Global {
 				ctx = auth.AppendScopes(ctx, s)
@@ -626,7 +688,7 @@ func tailS(s []string, n int) []string {
 func (e *env) regSummary() []map[string]string {
 	var out []map[string]string
 	for _, rs := range e.regs {
-		out = append(out, map[string]string{"host": rs.Host, "scheme_at_start": rs.Scheme, "realm": rs.RealmKind, "cred": rs.CredKind})
+		out = append(out, map[string]string{"host": rs.Host, "scheme_at_start": rs.Scheme, "realm": rs.RealmKind, "cred": rs.CredKind, "redirect": rs.Redirect})
 	}
 	return out
 }
@@ -644,7 +706,12 @@ func (e *env) judge(o outcome, live bool, what string) {
 		return map[string]any{"request": o.spec, "host": rs.Host, "context": what, "error": errS, "status": o.status,
 			"sends": st.Sends, "token_fetches": st.Fetches, "hinted": o.spec.hintedFor(rs.Host), "events": e.world.EventsFor(o.corr)}
 	}
-	if live && e.valid(rs) {
+	if st.Redirected {
+		// net/http followed a redirect to another host: whose answer ends the
+		// request is that host's business; only the transport monitor judges
+		e.count("redirected_requests", 1)
+		e.count(fmt.Sprintf("redirected_requests_ending_%d", o.status), 1)
+	} else if live && e.valid(rs) {
 		e.count("liveness_judged", 1)
 		switch {
 		case o.err != nil && (errors.Is(o.err, context.Canceled) || errors.Is(o.err, context.DeadlineExceeded)):
@@ -792,7 +859,7 @@ func runCase(phase string, i int) worker.Result {
 func (e *env) caseKey() string {
 	var parts []string
 	for _, rs := range e.regs {
-		parts = append(parts, rs.Scheme+"/"+rs.RealmKind+"/"+rs.CredKind)
+		parts = append(parts, rs.Scheme+"/"+rs.RealmKind+"/"+rs.CredKind+"/"+rs.Redirect)
 	}
 	return fmt.Sprintf("%s|%v|%s", e.flavour, e.force, strings.Join(parts, ","))
 }
@@ -952,9 +1019,22 @@ func runConc(e *env, i int) {
 		}
 		return nil
 	}
+	e.world.After = func(req *http.Request, info authmodel.ReqInfo, resp *http.Response) {
+		if sb := e.sendBar.Load(); sb != nil && info.Kind == "registry" && resp.StatusCode == http.StatusUnauthorized {
+			sb.mu.Lock()
+			passed, member := sb.members[info.Corr]
+			if member && !passed {
+				sb.members[info.Corr] = true
+			}
+			sb.mu.Unlock()
+			if member && !passed {
+				sb.arrive()
+			}
+		}
+	}
 	var shape []string
 	// warm-up: so that the cache holds secrets of several hosts
-	warm := shuffled(rng, []int{0, 1, 2, 3}[:len(e.regs)])
+	warm := shuffled(rng, e.regIdx())
 	nWarm := rng.IntN(len(e.regs))
 	for _, reg := range warm[:nWarm] {
 		sp := e.genRequest(reg, "")
@@ -975,6 +1055,14 @@ func runConc(e *env, i int) {
 		}
 		if e.flavour == "single" && rng.IntN(2) == 0 {
 			shape = append(shape, singleCtxProbe(e, rd))
+			continue
+		}
+		if rng.IntN(5) == 0 {
+			s, ok := sharedCtxRound(e, rd)
+			shape = append(shape, s)
+			if ok {
+				nt = true
+			}
 			continue
 		}
 		if e.flavour != "none" && rng.IntN(5) == 0 {
@@ -1063,7 +1151,10 @@ func storm(e *env, rd int) (string, bool) {
 				e.count("unjudged_singlectx_mixed_shapes_requests", 1)
 				continue
 			}
-			e.judge(o, true, "storm")
+			// a request to a redirecting host may share the fetch of a concurrent
+			// redirected request (same scope key, challenge of the redirect target):
+			// its failure is then the shared result, not judged
+			e.judge(o, !e.regs[o.spec.Reg].redirects, "storm")
 			e.regs[o.spec.Reg].lastSpec = o.spec
 			e.regs[o.spec.Reg].touched = true
 		}
@@ -1085,9 +1176,9 @@ func storm(e *env, rd int) (string, bool) {
 func singleCtxProbe(e *env, rd int) string {
 	rng := e.rng
 	reg := -1
-	for _, k := range shuffled(rng, []int{0, 1, 2, 3}[:len(e.regs)]) {
+	for _, k := range shuffled(rng, e.regIdx()) {
 		rs := e.regs[k]
-		if e.world.Registry(rs.Host).Scheme == authmodel.SchemeBearer && e.valid(rs) && rs.CredKind != "access" {
+		if e.world.Registry(rs.Host).Scheme == authmodel.SchemeBearer && e.valid(rs) && rs.CredKind != "access" && !rs.redirects {
 			reg = k
 			break
 		}
@@ -1186,6 +1277,95 @@ func head(s string, n int) string {
 	return s
 }
 
+// sendBarrier makes the members of a shared-context round receive their first
+// 401 together, so that they merge the challenged scope into the hinted scopes
+// at the same moment.
+type sendBarrier struct {
+	barrier
+	mu      sync.Mutex
+	members map[int]bool // corr -> first 401 already passed
+}
+
+// sharedCtxRound: 6-12 concurrent requests to one Bearer host SHARE one context
+// whose scope hints were built by successive Append calls (3, 5 or 6 distinct
+// hints: the cleaned list then has spare capacity), each request for another
+// repository, hence another challenged scope. Oracle as everywhere: valid
+// credentials => the registry's non-401 answer, and (NewCache / no cache) the
+// token a request presents was issued for hinted ∪ challenged of THAT request.
+func sharedCtxRound(e *env, rd int) (string, bool) {
+	rng := e.rng
+	reg := -1
+	for _, k := range shuffled(rng, e.regIdx()) {
+		rs := e.regs[k]
+		if e.world.Registry(rs.Host).Scheme == authmodel.SchemeBearer && e.valid(rs) && rs.CredKind != "access" && !rs.redirects {
+			reg = k
+			break
+		}
+	}
+	if reg < 0 {
+		return "sharedctx-none", false
+	}
+	rs := e.regs[reg]
+	nHints := []int{3, 5, 6}[rng.IntN(3)]
+	perHost := rng.IntN(3) != 0
+	base := context.Background()
+	var hints []string
+	for j := 0; j < nHints; j++ {
+		h := fmt.Sprintf("repository:hinted%d-%d/%s:pull", rd, j, e.repos[rng.IntN(len(e.repos))])
+		hints = append(hints, h)
+		if perHost {
+			base = auth.AppendScopesForHost(base, rs.Host, h)
+		} else {
+			base = auth.AppendScopes(base, h)
+		}
+	}
+	k := 6 + rng.IntN(7)
+	var specs []*reqSpec
+	for j := 0; j < k; j++ {
+		repo := fmt.Sprintf("shared%d-%d/%s", rd, j, e.repos[rng.IntN(len(e.repos))])
+		sp := &reqSpec{Reg: reg, Method: "GET", Path: "/v2/" + repo + "/manifests/latest", Shape: "sharedctx", PerHost: map[string][]string{}, baseCtx: base}
+		if perHost {
+			sp.PerHost[rs.Host] = hints
+		} else {
+			sp.Global = hints
+		}
+		specs = append(specs, sp)
+	}
+	e.ops = append(e.ops, fmt.Sprintf("shared-context round: %d concurrent GETs for different repositories of %s under ONE context with %d hints (per-host=%v)", k, rs.Host, nHints, perHost))
+	sb := &sendBarrier{members: map[int]bool{}}
+	sb.need = int64(k)
+	e.sendBar.Store(sb)
+	defer e.sendBar.Store(nil)
+	var wg sync.WaitGroup
+	outs := make([]outcome, k)
+	start := make(chan struct{})
+	for j := range specs {
+		wg.Add(1)
+		go func(j int) {
+			defer wg.Done()
+			<-start
+			outs[j] = e.do(specs[j], func(ctx context.Context, corr int) context.Context {
+				sb.mu.Lock()
+				sb.members[corr] = false
+				sb.mu.Unlock()
+				return ctx
+			})
+		}(j)
+	}
+	close(start)
+	if !waitWG(&wg, 15*time.Second) {
+		hang(e, "shared-context round")
+		return "sharedctx-hung", false
+	}
+	for _, o := range outs {
+		e.judge(o, true, fmt.Sprintf("shared-context round (%d requests, one context with %d hints)", k, nHints))
+	}
+	rs.touched, rs.lastSpec = true, nil
+	e.count("shared_context_rounds", 1)
+	e.count("shared_context_requests", int64(k))
+	return fmt.Sprintf("sharedctx[h%d/k%d/%v]", nHints, k, perHost), true
+}
+
 // lateJoinProbe: request L is inside the token fetch (held); request W with the
 // same host / scheme / scope key enters Cache.Set, has its context ended and
 // returns; request R then enters Cache.Set and is seen inside syncutil.Once.Do
@@ -1196,10 +1376,10 @@ func head(s string, n int) string {
 func lateJoinProbe(e *env, rd int) (string, bool) {
 	rng := e.rng
 	reg := -1
-	for _, k := range shuffled(rng, []int{0, 1, 2, 3}[:len(e.regs)]) {
+	for _, k := range shuffled(rng, e.regIdx()) {
 		rs := e.regs[k]
 		scheme := e.world.Registry(rs.Host).Scheme
-		if !e.valid(rs) || scheme != authmodel.SchemeBasic && scheme != authmodel.SchemeBearer {
+		if !e.valid(rs) || rs.redirects || scheme != authmodel.SchemeBasic && scheme != authmodel.SchemeBearer {
 			continue
 		}
 		if scheme == authmodel.SchemeBasic && rs.touched || rs.CredKind == "access" && rs.touched {
@@ -1345,7 +1525,7 @@ func coalesceRound(e *env, rd int) (string, bool) {
 	if nGroups > len(e.regs) {
 		nGroups = len(e.regs)
 	}
-	regsOrder := shuffled(rng, []int{0, 1, 2, 3}[:len(e.regs)])
+	regsOrder := shuffled(rng, e.regIdx())
 	repo := fmt.Sprintf("round%d/%s", rd, e.repos[rng.IntN(len(e.repos))])
 	var groups []*group
 	inGroup := map[int]bool{}
@@ -1356,8 +1536,8 @@ func coalesceRound(e *env, rd int) (string, bool) {
 		}
 		rs := e.regs[reg]
 		scheme := e.world.Registry(rs.Host).Scheme
-		if scheme != authmodel.SchemeBasic && scheme != authmodel.SchemeBearer {
-			continue
+		if rs.redirects || scheme != authmodel.SchemeBasic && scheme != authmodel.SchemeBearer {
+			continue // (redirected requests may never enter Set: no synchronised rounds on redirecting hosts)
 		}
 		if scheme == authmodel.SchemeBasic && rs.touched && e.flavour != "none" {
 			continue // warm Basic host: requests would never enter Set
@@ -1442,7 +1622,7 @@ func coalesceRound(e *env, rd int) (string, bool) {
 	// background: warm requests to hosts outside the groups
 	var bg []*reqSpec
 	for reg, rs := range e.regs {
-		if !inGroup[reg] && rs.lastSpec != nil && rs.touched && e.valid(rs) {
+		if !inGroup[reg] && rs.lastSpec != nil && rs.touched && e.valid(rs) && !rs.redirects {
 			for j := rng.IntN(3); j > 0; j-- {
 				bg = append(bg, rs.lastSpec)
 			}
